@@ -111,6 +111,8 @@ def elem_val(z, elem):
         return VI(z)
     if elem == 'str':
         return VS(z)
+    if elem in ('item', 'node'):
+        return Val(elem, z)
     raise Unsupported('element type ' + elem)
 
 
@@ -124,6 +126,14 @@ def elem_z(v, elem):
         return v.z
     if elem == 'str' and v.ty in ('str', 'tok'):
         return strz(v)
+    if elem in ('item', 'node') and v.ty == elem:
+        return v.z
+    if elem == 'item' and v.ty == 'node':
+        from .sorts import Item
+        return Item.wrapped(v.z)
+    if elem == 'item' and v.ty == 'E':
+        from .sorts import Item
+        return Item.raw(v.z)
     raise Unsupported('value %s as element %s' % (v.ty, elem))
 
 
